@@ -44,8 +44,27 @@ def main():
     par = a.jobs or spec.get("parallel", {}).get(tier) or min(16, max(1, os.cpu_count() or 1))
     t0 = time.time()
     results = []
+    # memory budget: the sum of the per-job RLIMIT_AS of running jobs stays below MEM_BUDGET_GB
+    import threading
+    budget = {"free": float(os.environ.get("VERIF_MEM_GB", "44"))}
+    cond = threading.Condition()
+
+    def guarded(j):
+        need = min(j.mem_gb, budget["free"] if budget["free"] > 0 else j.mem_gb)
+        need = j.mem_gb
+        with cond:
+            while budget["free"] < need and budget["free"] < float(os.environ.get("VERIF_MEM_GB", "44")):
+                cond.wait()
+            budget["free"] -= need
+        try:
+            return rn.solve(j)
+        finally:
+            with cond:
+                budget["free"] += need
+                cond.notify_all()
+
     with cf.ThreadPoolExecutor(max_workers=par) as ex:
-        futs = {ex.submit(rn.solve, j): j for j in joblist}
+        futs = {ex.submit(guarded, j): j for j in joblist}
         for f in cf.as_completed(futs):
             r = f.result()
             results.append(r)
